@@ -263,9 +263,17 @@ var checkT = ev.Register("tdist", func(c *TCase) ev.Outcome {
 			}
 			ev.MaxErr("t-CDF", math.Abs(got-want)/1e-9)
 		}
-		if got < prev-1e-12 {
+		// monotone up to the accuracy of the evaluation: about 1e-11 for V <= 1e4; for larger V
+		// the statement itself puts the accuracy at about 1e-9 (dips of 2e-12 were measured at
+		// V ~ 1.6e5 between abscissae 7e-12 apart)
+		monoSlack := 1e-11
+		if !accurate {
+			monoSlack = 2e-9
+		}
+		if got < prev-monoSlack {
 			return ev.Fail("V=%v: CDF decreases: CDF(%v) = %.17g after %.17g", c.V, x, got, prev)
 		}
+		ev.MaxErr("t-monotone-dip", (prev-got)/monoSlack)
 		if got > prev {
 			prev = got
 		}
